@@ -24,6 +24,7 @@ struct BoxOpts {
   bool all_strides = false;    // {N, N+1} or {N, N+1, N+3, 2N+5}
   std::vector<CpuCfg> cf = {CFG_NATIVE, CFG_GENERIC};
   std::vector<uint64_t> ks = {1, 10, 62};
+  bool one_stride = false;     // the top layer: a single stride (N+1) per operand
   bool wide = false;           // the wide layer: its own VMP shape list, no long-source extras
   bool inplace = false;        // also the same-pointer calls: res==a, res==b, res==a==b, a==b (element-wise ops), res==a (normalisation), res==a_dft (inverse DFTs)
 };
@@ -32,6 +33,12 @@ struct BoxOpts {
 inline BoxOpts large_layer(bool thorough, const std::vector<CpuCfg>& cf) {
   BoxOpts o; o.Ns = thorough ? std::vector<uint64_t>{256, 4096, 65536} : std::vector<uint64_t>{256, 2048, 16384};
   o.max_size = 1; o.extra_sizes = {3}; o.vmp_max_dim = 2; o.vmp_max_size = 2; o.ks = {19}; o.cf = cf; return o;
+}
+
+// the largest supported ring dimension in every tier (an index or a count kept in 16 bits wraps exactly there): N = 65536, limb counts
+// {0,1,2}, one stride, native dispatch
+inline BoxOpts top_layer() {
+  BoxOpts o; o.Ns = {65536}; o.max_size = 2; o.extra_sizes = {}; o.vmp_max_dim = 1; o.vmp_max_size = 2; o.ks = {19}; o.cf = {CFG_NATIVE}; o.one_stride = true; return o;
 }
 
 // a third, sparse layer of WIDE shapes at small ring dimensions: limb / row / column counts around 16, 32, 64, 128, 256 (a counter or an
@@ -68,6 +75,7 @@ inline void run_group(const ApiGroup& G, const BoxOpts& o, const std::function<v
   MODULE* mod = get_module(N, t, G.cfg);
   const char* cfg = G.cfg.name;
   std::vector<uint64_t> strides = o.all_strides ? std::vector<uint64_t>{N, N + 1, N + 3, 2 * N + 5} : std::vector<uint64_t>{N, N + 1};
+  if (o.one_stride) strides = {N + 1};
   std::vector<uint64_t> one = {N};
   const uint64_t S = o.max_size;
   std::vector<uint64_t> SZ; for (uint64_t i = 0; i <= S; ++i) SZ.push_back(i); for (uint64_t e : o.extra_sizes) SZ.push_back(e);
@@ -108,6 +116,7 @@ inline void run_group(const ApiGroup& G, const BoxOpts& o, const std::function<v
           } else {
             std::vector<std::vector<uint64_t>> RG;
             for (uint64_t end = 0; end <= 5; ++end) for (uint64_t begin = 0; begin <= end; ++begin) for (uint64_t step = 1; step <= 3; ++step) RG.push_back({begin, end, step});
+            if (o.one_stride) { RG.clear(); RG.push_back({0, 2, 1}); RG.push_back({0, 3, 2}); RG.push_back({1, 1, 1}); }
             if (N <= 64 && rs <= 3) { RG.push_back({0, 40, 1}); RG.push_back({1, 80, 2}); }  // long ranges
             if (o.wide) { RG.clear(); for (auto& q : std::vector<std::vector<uint64_t>>{{0, 257, 1}, {1, 258, 2}, {3, 300, 4}, {0, 129, 1}, {0, 260, 129}, {255, 257, 1}, {0, 1024, 4}}) RG.push_back(q); }
             for (auto& rg : RG) { const uint64_t begin = rg[0], end = rg[1], step = rg[2];
@@ -121,7 +130,7 @@ inline void run_group(const ApiGroup& G, const BoxOpts& o, const std::function<v
     }
     case F_DFT: {
       for (uint64_t rs : SZ) for (uint64_t as : SZ)
-        for (uint64_t asl : (G.sub == 0 ? std::vector<uint64_t>{N, N + 1, N + 3} : one)) {
+        for (uint64_t asl : (G.sub == 0 ? (o.one_stride ? strides : std::vector<uint64_t>{N, N + 1, N + 3}) : one)) {
           DftShape s; s.N = N; s.rs = rs; s.as = as; s.asl = asl; s.variant = G.sub;
           ApiCase c = gen_dft(mod, t, s, cfg);
           fn(c);
@@ -131,7 +140,7 @@ inline void run_group(const ApiGroup& G, const BoxOpts& o, const std::function<v
     }
     case F_SVP_PREPARE: { ApiCase c = gen_svp_prepare(mod, N, cfg); fn(c); break; }
     case F_SVP_APPLY: {
-      for (uint64_t rs : SZ) for (uint64_t as : SZ) for (uint64_t asl : {N, N + 3}) {
+      for (uint64_t rs : SZ) for (uint64_t as : SZ) for (uint64_t asl : (o.one_stride ? strides : std::vector<uint64_t>{N, N + 3})) {
         SvpShape s; s.N = N; s.rs = rs; s.as = as; s.asl = asl;
         ApiCase c = gen_svp_apply(mod, s, cfg);
         fn(c);
@@ -147,13 +156,13 @@ inline void run_group(const ApiGroup& G, const BoxOpts& o, const std::function<v
         }
         break;
       }
-      if (G.sub != 0) for (auto& q : std::vector<std::vector<uint64_t>>{{7, 9, 8, 9}, {9, 7, 10, 5}, {1, 12, 1, 11}, {12, 1, 13, 1}, {8, 8, 8, 7}, {6, 6, 3, 5}, {5, 8, 2, 7}, {4, 4, 1, 3}, {3, 6, 2, 3}}) {
+      if (G.sub != 0 && !o.one_stride) for (auto& q : std::vector<std::vector<uint64_t>>{{7, 9, 8, 9}, {9, 7, 10, 5}, {1, 12, 1, 11}, {12, 1, 13, 1}, {8, 8, 8, 7}, {6, 6, 3, 5}, {5, 8, 2, 7}, {4, 4, 1, 3}, {3, 6, 2, 3}}) {
         VmpShape s; s.N = N; s.nrows = q[0]; s.ncols = q[1]; s.as = q[2]; s.rs = q[3]; s.asl = N + 3; s.variant = G.sub; ApiCase c = gen_vmp(mod, s, cfg); fn(c);
       }
       for (uint64_t nr = 1; nr <= o.vmp_max_dim; ++nr) for (uint64_t nc = 1; nc <= o.vmp_max_dim; ++nc) {
         if (G.sub == 0) { VmpShape s; s.N = N; s.nrows = nr; s.ncols = nc; s.variant = 0; ApiCase c = gen_vmp(mod, s, cfg); fn(c); continue; }
         for (uint64_t as = 0; as <= o.vmp_max_size; ++as) for (uint64_t rs = 0; rs <= o.vmp_max_size; ++rs)
-          for (uint64_t asl : (G.sub == 1 ? std::vector<uint64_t>{N, N + 3} : one)) {
+          for (uint64_t asl : (G.sub == 1 ? (o.one_stride ? strides : std::vector<uint64_t>{N, N + 3}) : one)) {
             VmpShape s; s.N = N; s.nrows = nr; s.ncols = nc; s.as = as; s.rs = rs; s.asl = asl; s.variant = G.sub;
             ApiCase c = gen_vmp(mod, s, cfg);
             fn(c);
